@@ -22,7 +22,7 @@ import (
 func init() {
 	fw.Register(&fw.Check{
 		ID: "C06", Level: "model_checking", InProcess: true,
-		Rule: "explicit-state BFS: a state is the reference resolver's configuration (stack of open directives with their explicit flags + the pending directive); from every reachable state every token of the alphabet (each of the 29 directive kinds in a canonical scanner-valid rendering, HTTP methods both path-less and path-bearing, '(' and ')') is appended to the state's representative sequence, the text is run through the real scanner + scanProject (hook VerifScan) and the directive forest (or the rejection and its position) is compared with the reference resolver's, and for every accepted sequence without PASTE the second forest the library builds after macro expansion (the one the catalog comes from) must be the first minus the MACRO declarations; then a second pass in which every state is expanded again from a history-rich representative (reached through its deepest predecessors: what was opened and left before is still in the text), so that state the implementation keeps beyond the reference state shows, and a third pass that appends ')' and then every token to the history-rich representative of every state with an open parenthesis; then re-resolution after PASTE: every macro body of <= 2 directives pasted at a representative of every reachable stack; non-trivial = transition whose sequence is accepted with >= 2 directives or rejected for context; distinct = reference states ; E-REFCAT (see C04): on every fixture and pool selection the scan-phase forest of the implementation equals the forest the reference resolver builds from the document's own lexemes, and both reject for context in the same cases ; INCLUDE boundaries: ALL token sequences of length 2..3 (thorough: 4 over 18 tokens) x every contiguous run of whole directives (without parentheses of its own) moved into an included file: forest and kind of rejection = the reference resolver's on the sequence written in one file",
+		Rule: "explicit-state BFS: a state is the reference resolver's configuration (stack of open directives with their explicit flags + the pending directive); from every reachable state every token of the alphabet (each of the 29 directive kinds in a canonical scanner-valid rendering, HTTP methods both path-less and path-bearing, '(' and ')') is appended to the state's representative sequence, the text is run through the real scanner + scanProject (hook VerifScan) and the directive forest (or the rejection and its position) is compared with the reference resolver's, and for every accepted sequence without PASTE the second forest the library builds after macro expansion (the one the catalog comes from) must be the first minus the MACRO declarations; then a second pass in which every state is expanded again from a history-rich representative (reached through its deepest predecessors: what was opened and left before is still in the text), so that state the implementation keeps beyond the reference state shows, and a third pass that appends ')' and then every token to the history-rich representative of every state with an open parenthesis; then re-resolution after PASTE: every macro body of <= 2 directives pasted at a representative of every reachable stack; non-trivial = transition whose sequence is accepted with >= 2 directives or rejected for context; distinct = reference states ; E-REFCAT (see C04): on every fixture and pool selection the scan-phase forest of the implementation equals the forest the reference resolver builds from the document's own lexemes, and both reject for context in the same cases ; INCLUDE boundaries: ALL token sequences of length 2..3 (thorough: 4 over 18 tokens) x every contiguous run of whole directives (without parentheses of its own) moved into an included file: forest and kind of rejection = the reference resolver's on the sequence written in one file ; two-level includes (root -> a.jst -> b.jst): every nesting of four split points, parentheses anywhere (also across file boundaries), reduced alphabet, length 2..3",
 		Assume: []string{"admissibility of a kind under a kind is taken from the library's public predicates (the table is unit-tested cell by cell; the walk is what is checked)",
 			"'(' when no directive is pending is outside the property's sentence and is not generated (C01 covers it)"},
 		Run: runC06, QuickCap: 10 * time.Minute, ThoroughCap: 40 * time.Minute,
